@@ -60,6 +60,32 @@ AfterUnify(L, R, new, cs, n) ==
            /\ \A i \in mine : (\A k \in mine : new[i].ls <= new[k].ls) => new[i].ls - cs[j].ls \in 0..n
            /\ \A i \in mine : (\A k \in mine : new[k].le <= new[i].le) => cs[j].le - new[i].le \in 0..n
 
+(* ---- other call orders --------------------------------------------------- *)
+\* One AddContext(n) from any earlier stage `prev` is AfterContext(prev).  Unify from a
+\* stage `prev` (what New, an earlier Unify, or one AddContext after them left behind):
+\* valid, disjoint, not adjacent, applicable chunks that cover the previous ones and
+\* reach exactly as far as their outermost members (Unify adds and drops no line).
+MinOf(S) == CHOOSE x \in S : \A y \in S : x <= y
+MaxOf(S) == CHOOSE x \in S : \A y \in S : y <= x
+StepUnify(L, R, prev, cs) ==
+  /\ \A i \in DOMAIN cs : ChunkOK(L, R, cs[i])
+  /\ Ascending(cs, TRUE)
+  /\ Applies(L, R, cs)
+  /\ (prev = <<>>) = (cs = <<>>)
+  /\ \A i \in DOMAIN prev : \E j \in DOMAIN cs : Inside(prev[i], cs[j])
+  /\ \A j \in DOMAIN cs :
+       LET mine == {i \in DOMAIN prev : Inside(prev[i], cs[j])}
+       IN  /\ mine # {}
+           /\ cs[j].ls = MinOf({prev[i].ls : i \in mine}) /\ cs[j].le = MaxOf({prev[i].le : i \in mine})
+           /\ cs[j].rs = MinOf({prev[i].rs : i \in mine}) /\ cs[j].re = MaxOf({prev[i].re : i \in mine})
+RECURSIVE PipeOK(_, _, _, _, _, _)
+PipeOK(L, R, edits, prev, pipe, k) ==
+  IF k > Len(pipe) THEN TRUE
+  ELSE LET st == pipe[k]
+       IN  /\ st.e = edits                     \* Edits is never disturbed
+           /\ (IF st.k = 0 THEN AfterContext(L, R, prev, st.cs, st.n) ELSE StepUnify(L, R, prev, st.cs))
+           /\ PipeOK(L, R, edits, st.cs, pipe, k + 1)
+
 (* ---- transcription of mdiff.New ---------------------------------------- *)
 RECURSIVE NewGo(_, _, _, _, _, _)
 NewGo(es, k, lcur, rcur, out, cur) ==     \* cur: the chunk being built
